@@ -730,9 +730,24 @@ func (sc *c09Scn) makeFork(a, b int64, lunatic bool, class int, link bool) {
 var (
 	c09VBFail     = []string{"wrong-chain", "commit-height", "commit-bid", "vals-swap", "fmt-bad", "round-neg"}
 	c09VerifyFail = []string{"time-old", "time-future", "time-future-edge", "weak-commit", "garbage-sig", "sig-other-bid",
-		"sig-other-key", "wrong-signer", "nextvals", "size-drop", "bid-psh"}
+		"sig-other-key", "wrong-signer", "nextvals", "size-drop", "bid-psh", "double-vote"}
 	c09Consistent = []string{"forged-self", "equivocation", "forged-sameset", "time-late"}
 )
+
+// doubleVote turns sp into a forged block whose validator set is {x: 10, fresh key: 1} and whose
+// commit carries x's precommit in slot 0 and once more, under x's address, in slot 1
+func (sc *c09Scn) doubleVote(sp *c09Spec, x int) {
+	f := sc.mkVS([]int{x, sc.freshKey()}, []int64{10, 1})
+	sp.vs, sp.nvh, sp.app, sp.hdr = f, f.hash, c09H("forged-app"), nil
+	sp.modes = make([]c09Mode, len(f.keys))
+	for i, k := range f.keys {
+		if k == x {
+			sp.modes[i] = c09Mode{k: c09Good}
+		} else {
+			sp.modes[i] = c09Mode{k: c09OtherKey, key: x}
+		}
+	}
+}
 
 func (sc *c09Scn) pickKind(cat int) string {
 	var l []string
@@ -860,6 +875,12 @@ func (sc *c09Scn) mutant(h int64, kind string) int {
 	case "wrong-signer":
 		keepHdr()
 		sp.modes[firstSigner] = c09Mode{k: c09WrongSigner, key: sc.freshKey()}
+	case "double-vote":
+		tv := sc.vals[sc.root]
+		if sc.r.Bool() {
+			tv = sc.vals[h]
+		}
+		sc.doubleVote(&sp, tv.keys[sc.r.Intn(len(tv.keys))])
 	case "nextvals":
 		if sc.vals[h] != sc.vals[h+1] {
 			sp.nvh = sc.vals[h].hash
@@ -1903,7 +1924,7 @@ func c09Subset(vs *c09VS, target int64) []int {
 	return nil
 }
 
-var c09CollusionKinds = []string{"trust-exact", "trust-above", "nextvals-overlap", "nextvals-foreign", "own-exact", "own-above"}
+var c09CollusionKinds = []string{"trust-exact", "trust-above", "nextvals-overlap", "nextvals-foreign", "own-exact", "own-above", "double-vote"}
 var c09CollusionFixed = []string{"time-future-eq", "time-future-ok", "expired-eq", "expired-ok", "time-equal",
 	"wit-noresp", "wit-notfound", "wit-behind", "wit-ctx", "wit-bad", "back-forged-chain", "back-forged-target", "back-genuine"}
 
@@ -1957,6 +1978,21 @@ func c09Collusion(r *vg.Rand, what string, seq bool, num, den uint64) *c09Scn {
 		f := ownSet(co, 2)
 		i := forgedAt(T, f, fmt.Sprintf("forged(coalition %v power %d of %d)", co, p, tot))
 		collude[T] = []c09Reply{c09B(i)}
+	case "double-vote":
+		// one trusted validator X with power p <= level < 2p forges a block with a set of its own
+		// making (X first, with > 2/3 of it) and lists its single precommit twice: slot 0 and,
+		// under its own address again, slot 1.  Counted once it stays at or below the trust level.
+		xi := 0
+		for i, p := range V.pows {
+			if p <= level && 2*p > level {
+				xi = i
+				break
+			}
+		}
+		sp := sc.gspec[T]
+		sc.doubleVote(&sp, V.keys[xi])
+		sp.kind = fmt.Sprintf("forged(validator k%d power %d of %d votes twice)", V.keys[xi]+1, V.pows[xi], tot)
+		collude[T] = []c09Reply{c09B(sc.build(sp))}
 	case "nextvals-overlap", "nextvals-foreign":
 		T = sc.root + 1
 		var f *c09VS
